@@ -14,7 +14,8 @@ from harness.trace import Recorder, _tls, install_patches, pkey, task_class
 
 PROP = "C11"
 THEOREMS = ["Lbfgsb.C11.ls_points_in_box", "Lbfgsb.C11.ls_evals_le_cap", "Lbfgsb.C11.ls_result_downhill",
-            "Lbfgsb.C11.maxStep_feasible", "Lbfgsb.C11.ls_trials_on_ray", "Lbfgsb.C11.dcsrch_steps_in_range"]
+            "Lbfgsb.C11.maxStep_feasible", "Lbfgsb.C11.ls_trials_on_ray", "Lbfgsb.C11.dcsrch_steps_in_range",
+            "Lbfgsb.C11.ls_result_in_range", "Lbfgsb.C11.ls_steps_in_range", "Lbfgsb.C11.ls_evals_on_ray"]
 MODULES = ["LbfgsbVerif.Props.C11"]
 
 
@@ -129,6 +130,12 @@ def evaluate(case: Dict[str, Any]) -> Dict[str, Any]:
         if not got2 or got2[0] != exp2:
             diffs.append(f"DCSRCH model differs from scipy's stepper: impl {exp2[:160]} | model {(got2 or [''])[0][:160]}")
         out["tags"].append("stepper_model_compared=True")
+    # ---- the bound handed to the stepper: the model's max_allowed_steplength against the recorded stpmax, bit for bit
+    if "stpmax" in ent:
+        got3 = shell.driver().run([f"maxstep {vhex(x0)} {vhex(d)} {vhex(p.lb)} {vhex(p.ub)} {fhex(maxstep_user)} {above_iter}"])
+        if not got3 or got3[0] != f"maxstep {fhex(ent['stpmax'])}":
+            diffs.append(f"max_allowed_steplength: impl {ent['stpmax']} model {hexf(got3[0].split()[1]) if got3 else None}")
+        out["tags"].append("stpmax_model_compared=True")
     out["corr"] = diffs
     if nF >= 2:
         out["nontrivial"] = str(case["seed"])
